@@ -97,7 +97,11 @@ class ParametricTransform:
 
     def has_parameters(self) -> bool:
         r"""Whether this transformation has optimizable parameters."""
-        return isinstance(self.params, Parameter)
+        params = self.params
+        if isinstance(params, ParametricTransform):
+            # Linked transformation uses (raw) parameters of other transformation
+            return params.has_parameters()
+        return isinstance(params, Parameter)
 
     def _unregister_params(self: Union[TSpatialTransform, ParametricTransform]) -> None:
         r"""Remove ``params`` from module containers such that it can be set to a value of a different kind."""
